@@ -43,7 +43,7 @@ def gen_cases(tier, seed):
     for N in range(1, 5):
         for _ in range(3 if tier == "quick" else 20):
             shp = gen.rand_shape(rng, N, 1, 4)
-            for nel in sorted({1, min(shp), max(shp), max(shp) + 1}):
+            for nel in range(1, max(shp) + 2):
                 for sparse in (False, True):
                     yield C(w="diag", shape=list(shp), nel=nel, sparse=sparse, with_shape=True)
     for nel in (1, 2, 3):
